@@ -229,7 +229,10 @@ func (t *Array) Process(ctx *ProcessContext, di *DataIndexer, accessor Accessor)
 	// Skip redundant bits post decoding.
 	if t.extensible && !ctx.isEncode {
 		// Skip redundant bits.
-		ito := i + int(ahead)*t.capacity
+		// Number of bits each element occupies in the opponent's buffer,
+		// measured from the elements just decoded (16 is the ahead flag).
+		elementNbits := (ctx.i - i - 16) / t.capacity
+		ito := i + 16 + int(ahead)*elementNbits
 		if ito >= ctx.i {
 			ctx.i = ito
 		}
